@@ -156,7 +156,13 @@ def check_call(p, name, base0, other, call, depth_tag=""):
             problems.append(f"copy of the result raised {type(e).__name__}")
     if not problems:
         zs = {lab: z3.Bool(f"x{i}") for i, lab in enumerate(exp_inputs)}
-        ER = refsem.denote(net, zs)
+        try:
+            ER = refsem.denote(net, zs)
+        except ValueError:
+            # the documented composition of this call is not a circuit (it closes a loop): the call had to be rejected
+            problems.append("the call returned normally although the documented composition is cyclic")
+            ER = None
+    if not problems:
         sym = {lab: symeval.SymState(v, False) for lab, v in zs.items()}
         lazy = base.evaluate_circuit(dict(sym))
         full = base.evaluate_full_circuit(dict(sym))
